@@ -32,15 +32,15 @@ T = {
  "C10": ("Per Task one job and one call; per Slice/Map one job per iteration called with per-iteration copies of index/key and value, collection expression evaluated once; End job enqueued once after the loop with Dependencies = all element jobs.",
          "Collection sizes are not enumerated: the rule is per loop body, hence size independent."),
  "C11": ("Task depends on its predicate job; user call dominated by the predicate-true edge, false edge returns nil touching no output; recover-defer precedes the gate and folds the predicate's panic; fallback assignments exactly on the err!=nil and recovered!=nil edges, clearing err.",
-         "compile.go's construction of the predicate dependency is checked on regenerated corpora only."),
+         "compile.go's construction of the predicate dependency is checked by G19 on the source and, behaviourally, only on the regenerated corpora (a generated family of shapes: fan-in from one provider, repeated parameter types, predicates with own/shared inputs, reversed listing)."),
  "C12": ("Ownership: loop-owned fields touched only by the loop goroutine, Scheduler.err read only after the finish receive, Enqueue touches only the new object and the channel, ScheduledJob sealed; generated shared variables single-writer with every reader ordered after the writer by Dependencies or Wait; ran is atomic.",
          "Races inside user functions are out of scope; the Go memory model's channel edges are the trusted base."),
  "C13": ("Every template variant parses and type-checks under adversarial import aliases; every template field path exists; no output write before re-parse and format succeeded; compile errors abort generation; constant accessors with panicking preconditions are guarded; errors reach the exit status.",
          "User identifiers shadowing package names, directives nested in task literals and printing of arbitrary user types are out of static reach (DESIGN §5 C13)."),
  "C14": ("All validators run on every path before scheduling/generation and any diagnostic aborts; duplicate-provider results are tested; diagnostics are positioned; Slice/Map assignability is tested in the direction of the generated call.",
-         "Soundness/completeness of the cycle search and of the BFS over all graphs is NOT decided."),
+         "Soundness/completeness of the cycle search and of the BFS over all graphs is NOT decided (a seeded change to the cycle memo, C14_d, is not detected: see DESIGN §10)."),
  "C15": ("Every ast.Expr-typed template value is printed through the hoisting printer (raw printer only in the prologue); the printer records before naming; prologue sorted by position and written before the staged body.",
-         "Scope capture by the wrapper's named result `err` is a recorded finding (F6)."),
+         "Evaluation order among the hoisted definitions relies on Go's statement order; user expressions that are the literal nil or synthetic (auto-instrument names) are printed in place by design."),
  "C16": ("Closed list of file-writing calls whose path flows from the output-path parameter; constraint inversion is a structural recursion visiting every constraint.Expr child and altering only cff tags; source bytes between directives are copied by a chained offset walk.",
          "`// +build` multi-line regrouping and gofmt interplay are NOT decided."),
  "C17": ("Non-interference: no map-iteration order, randomness, time, environment, goroutine/select or package-level mutable state can flow to output; the random token flows only to comment text that is replaced.",
@@ -69,8 +69,8 @@ for pid in sorted(T):
         "replay_cmd_template": "cat {path}",
         "engine": "cffverif",
         "level_claimed": {"category": "other", "text": text + " Rules in this revision: " + ", ".join(rs) + ".", "design_ref": f"DESIGN.md §5 {pid}, §4"},
-        "level_note": "Static analysis only (go/packages + go/types + AST dominance on goto-free code; templates expanded over an abstract domain and type-checked). Decides structural necessary conditions, not the runtime behaviour itself. NOT covered: " + notcov + " A rule whose code shape is not recognised reports 'undecided' (counts as failure) rather than passing.",
-        "technique": "static analysis: repository-specific structural rules (ownership, dominance, pairing, effect summaries, who-may-call) over the type-checked AST of /repo; exhaustive template-variant expansion + go/types for generated code",
+        "level_note": "Static analysis only. Scheduler and emitter-stack rules are evaluated on go/ssa (value identity by def-use, conditions as dominating conditional edges, natural loops; helpers with one call site are analysed in the context of that call); generator rules on the type-checked AST; templates are expanded over an abstract domain and type-checked; generated code of the corpus is analysed, never run. Decides structural necessary conditions, not the runtime behaviour itself. NOT covered: " + notcov + " A rule whose code shape is not recognised reports 'undecided' (counts as failure) rather than passing.",
+        "technique": "static analysis: repository-specific structural rules (ownership, dominance of conditional edges, pairing, path-effect summaries, who-may-call) over go/ssa and the type-checked AST of /repo; exhaustive template-variant expansion + go/types; static translation validation of regenerated corpus code against an independent reading of the source directive",
     })
 m = {
  "version": 1,
